@@ -35,6 +35,7 @@ SHARDS = {'quick': 16, 'thorough': 16}
 BUDGET_S = {'quick': 200, 'thorough': 2400}
 
 
+@sc.abandon_safe
 def check(case) -> Outcome:
     from vt.simrt.sim import Abandon, Hang, Sim, StepBound, make_root_task
     from bqskit.runtime.message import RuntimeMessage as M
